@@ -130,7 +130,7 @@ void checkNode(const Node &n, const std::string &p, const char *site) {
         }
     } else {
         try { (void) path.listChildren(); fail("listChildren-wrong", site, "listChildren() on a regular file did not throw"); }
-        catch (const tulz::Exception &e) { if (e.type != Path::NotDirectory) fail("wrong-error", site, "listChildren() on a file: exception type " + std::to_string(e.type)); }
+        catch (...) {}   // which error it reports is not part of the statement, only that a regular file has no children to list
     }
 }
 
@@ -153,9 +153,9 @@ void walk(const Node &n, const std::string &p, const std::string &rel, rt::Rng &
         ++C.missingProbes;
         if (m.exists() || m.isFile() || m.isDirectory()) return fail("exists-wrong", "missing-path", "exists()/isFile()/isDirectory() true for missing " + esc(miss));
         try { (void) m.size(); return fail("wrong-error", "missing-path", "size() of a missing path did not throw"); }
-        catch (const tulz::Exception &e) { if (e.type != Path::NotFound) return fail("wrong-error", "missing-path", "size(): exception type " + std::to_string(e.type)); }
+        catch (...) {}   // (the kind of error is not part of the statement)
         try { (void) m.listChildren(); return fail("wrong-error", "missing-path", "listChildren() of a missing path did not throw"); }
-        catch (const tulz::Exception &e) { if (e.type != Path::NotFound) return fail("wrong-error", "missing-path", "listChildren(): exception type " + std::to_string(e.type)); }
+        catch (...) {}
     }
     for (auto &k : n.kids) walk(k, p + "/" + k.name, rel.empty() ? k.name : rel + "/" + k.name, rng);
 }
